@@ -293,6 +293,33 @@ func (m *monitor) walk(b bo.Box, p bo.Box) {
 		m.onlyKids(b, kids, kCell, "table-improper-child")
 	case k == kColGroup:
 		m.onlyKids(b, kids, kCol, "table-improper-child")
+		if m.res.Verdict != fw.Violation && f.PseudoType == "" && e.n.Tag == "colgroup" && e.cd == "table-column-group" && !hasColKid(e.n) {
+			// HTML §4.9.3 / "forming a table": a <colgroup> without <col> children stands for `span` columns
+			se := expectSpan(e.n, "span")
+			sig, gen := "column-span", ""
+			for _, p := range []*Pseudo{e.n.Before, e.n.After} {
+				switch {
+				case p == nil || pseudoDisplay(p) == "none":
+				case pseudoDisplay(p) == "table-column":
+					// generated content that is itself a column of the group: how it combines with the
+					// columns `span` stands for is defined nowhere; only the range is judged
+					se.exact = false
+				default:
+					// any other generated content is removed by CSS 2.1 §17.2.1 rule 1.2 and cannot change
+					// the number of columns.  webrender: known open finding, own signature
+					sig, gen = "colgroup-span-lost-to-generated-content", " (the group has ::before/::after content, which §17.2.1 rule 1.2 removes)"
+				}
+			}
+			if len(kids) < 1 || len(kids) > 1000 {
+				sig = "column-span"
+			}
+			if len(kids) < 1 || len(kids) > 1000 || (se.exact && len(kids) != se.html) {
+				m.fail(sig, "%s (span=%q, no <col> child) holds %d column boxes, expected %d%s", desc(b), attrOf(f.Element, "span"), len(kids), se.html, gen)
+				return
+			}
+			m.spanSeen("span", se, len(kids), se.html)
+			m.res.Count("colgroup_span_checked", 1)
+		}
 	case k == kCol, k == kText, k == kBlockRepl, k == kInlineRepl:
 		if len(kids) != 0 {
 			m.fail("leaf-has-children", "%s has %d children", desc(b), len(kids))
@@ -318,6 +345,17 @@ func (m *monitor) walk(b bo.Box, p bo.Box) {
 	for _, c := range kids {
 		m.walk(c, b)
 	}
+}
+
+func attrOf(e *html.Node, name string) string {
+	if e != nil {
+		for _, a := range e.Attr {
+			if a.Key == name {
+				return a.Val
+			}
+		}
+	}
+	return "(absent)"
 }
 
 func (m *monitor) onlyKids(b bo.Box, kids []bo.Box, want kind, sig string) {
@@ -370,27 +408,37 @@ func (m *monitor) checkWrapper(b bo.Box, k kind, kids []bo.Box) {
 	}
 }
 
-func attrInt(e *html.Node, name string, def, min int) int {
-	for _, a := range e.Attr {
-		if a.Key == name {
-			v := 0
-			s := strings.TrimSpace(a.Val)
-			if s == "" {
-				return def
-			}
-			for _, c := range s {
-				if c < '0' || c > '9' {
-					return def
-				}
-				v = v*10 + int(c-'0')
-			}
-			if v < min {
-				v = min
-			}
-			return v
-		}
+// spanOf: the model's reading of a span attribute (colspan, rowspan, span) of the element of a box,
+// from the generator's tree (spans.go).
+func (m *monitor) spanOf(el *html.Node, name string) spanExpect {
+	if n := m.dom[el]; n != nil {
+		return expectSpan(n, name)
 	}
-	return def
+	return spanExpect{html: 1, exact: true, class: "absent"}
+}
+
+// spanSeen records one judged span attribute: evidence class, and -- on the classes of non-conforming
+// values where only well-formedness is judged -- a report when webrender's value is not HTML's.
+func (m *monitor) spanSeen(name string, se spanExpect, got, want int) {
+	if !se.present {
+		return
+	}
+	m.res.Count("span_"+name+"_"+se.class, 1)
+	if se.exact {
+		m.res.Count("span_values_exact_verified", 1)
+		return
+	}
+	m.res.Count("span_values_range_only", 1)
+	if got != want {
+		m.res.Count("span_html_parse_deviation", 1)
+		r := fmt.Sprintf("%s attribute value of class %s: webrender does not read the value HTML's rules for parsing non-negative integers give (box tree well formed; reported, not judged)", name, se.class)
+		for _, old := range m.res.Reports {
+			if old == r {
+				return
+			}
+		}
+		m.res.Reports = append(m.res.Reports, r)
+	}
 }
 
 // checkTable: proper children at every level, header/footer placement, column numbering and the
@@ -403,8 +451,14 @@ func (m *monitor) checkTable(b bo.Box, groups []bo.Box) {
 	}
 	t, _ := tableOf(b)
 	// columns are numbered consecutively from 0; a group starts at its first column
-	x := 0
+	x, xPrev := 0, 0
+	resync := false
 	for gi, g := range t.ColumnGroups {
+		if resync && g.GridX >= xPrev+1 && g.GridX <= xPrev+1000 {
+			x = g.GridX
+		}
+		resync = false
+		xPrev = x
 		if g.GridX != x {
 			m.fail("column-gridx", "column group %d of %s has GridX %d, expected %d", gi, desc(b), g.GridX, x)
 			return
@@ -422,7 +476,12 @@ func (m *monitor) checkTable(b bo.Box, groups []bo.Box) {
 			m.res.Count("columns", 1)
 		}
 		if len(g.Children) == 0 {
-			x += attrInt(g.Element, "span", 1, 1)
+			// a column group without column boxes stands for `span` columns (HTML: 1 by default)
+			se := m.spanOf(g.Element, "span")
+			x += se.html
+			if !se.exact {
+				resync = true // the number of columns it stands for is only known to lie in [1,1000]
+			}
 		}
 	}
 	// header first, footer last (§17.2: table-header-group / table-footer-group)
@@ -480,22 +539,24 @@ func (m *monitor) checkTable(b bo.Box, groups []bo.Box) {
 				}
 				m.res.Count("cells", 1)
 				// expected spans: from the element's attributes when the cell is the element's own box
-				wantCol, wantRow := -1, -1
+				// (HTML §4.9.11 / §4.9.12 through the model of spans.go; whatever the attribute values are,
+				// a cell covers at least one slot and at most 1000 columns)
+				if cf.Colspan < 1 || cf.Rowspan < 1 || cf.Colspan > 1000 {
+					m.fail("cell-span", "%s has Colspan %d Rowspan %d (colspan=%q rowspan=%q): a cell spans 1..1000 columns and at least one row", name, cf.Colspan, cf.Rowspan, attrOf(cf.Element, "colspan"), attrOf(cf.Element, "rowspan"))
+					return
+				}
 				if e := m.info(cf.Element); e != nil && e.cd == "table-cell" && cf.PseudoType == "" {
-					wantCol = attrInt(cf.Element, "colspan", 1, 1)
-					rs := attrInt(cf.Element, "rowspan", 1, 0)
-					if rs == 0 || rs > len(rows)-ri {
-						rs = len(rows) - ri
+					ce, re := expectSpan(e.n, "colspan"), expectSpan(e.n, "rowspan")
+					wantCol, wantRow := ce.html, re.html
+					if wantRow == 0 || wantRow > len(rows)-ri {
+						wantRow = len(rows) - ri
 					}
-					wantRow = rs
-				}
-				if cf.Colspan < 1 || cf.Rowspan < 1 {
-					m.fail("cell-span", "%s has Colspan %d Rowspan %d", name, cf.Colspan, cf.Rowspan)
-					return
-				}
-				if wantCol >= 0 && (cf.Colspan != wantCol || cf.Rowspan != wantRow) {
-					m.fail("cell-span", "%s has Colspan %d Rowspan %d; its attributes and the %d rows left in the group give %d / %d", name, cf.Colspan, cf.Rowspan, len(rows)-ri, wantCol, wantRow)
-					return
+					if (cf.Colspan != wantCol && ce.exact) || (cf.Rowspan != wantRow && re.exact) {
+						m.fail("cell-span", "%s has Colspan %d Rowspan %d; its attributes colspan=%q rowspan=%q and the %d rows left in the group give %d / %d", name, cf.Colspan, cf.Rowspan, attrOf(cf.Element, "colspan"), attrOf(cf.Element, "rowspan"), len(rows)-ri, wantCol, wantRow)
+						return
+					}
+					m.spanSeen("colspan", ce, cf.Colspan, wantCol)
+					m.spanSeen("rowspan", re, cf.Rowspan, wantRow)
 				}
 				if ri+cf.Rowspan > len(rows) {
 					m.fail("cell-rowspan-overflow", "%s spans %d rows but only %d rows remain in its row group (CSS 2.1 §17.5 rule 6)", name, cf.Rowspan, len(rows)-ri)
@@ -608,6 +669,22 @@ func (m *monitor) checkElements() {
 		m.checkOwner(key, cd, e.replaced, pcd, what)
 		if m.res.Verdict == fw.Violation {
 			return
+		}
+		if n.Tag == "col" && e.cd == "table-column" {
+			// HTML §4.9.4 / "forming a table": a <col> stands for `span` columns
+			got, all := m.topmost[key], true
+			for _, c := range got {
+				all = all && kindOf(c) == kCol
+			}
+			if all {
+				se := expectSpan(n, "span")
+				if len(got) > 1000 || (se.exact && len(got) != se.html) {
+					m.fail("column-span", "%s with span=%q generates %d column boxes, expected %d", what, n.Attrs["span"], len(got), se.html)
+					return
+				}
+				m.spanSeen("span", se, len(got), se.html)
+				m.res.Count("col_span_checked", 1)
+			}
 		}
 		if e.footnote {
 			// css-gcpm-3 §2.6; not judged on replaced elements and <img> (no generated content there)
